@@ -5,6 +5,16 @@ import "fqverif/fw"
 // rules shared across properties, attached without touching the property's own files
 func init() {
 	RegisterExtra("C14", func(r *fw.Run, p *fw.Program) { jqImmutAs(r, p, "C14.immut") })
+	// values produced by fromjson / --argjson are gojqx wrappers: standard jq functions (has, keys, length, .[k], slices)
+	// reach them through the JQValue methods, which must answer as the plain JSON value does (C08.iface)
+	RegisterExtra("C07", func(r *fw.Run, p *fw.Program) {
+		sc := r.Scratch()
+		if f := Get("C08"); f != nil {
+			f(sc, p)
+			r.Import(sc, "C08.iface", "C07.wrappers", "the gojqx wrappers of JSON values (what fromjson, --argjson and decoded JSON hand to standard jq functions) answer length/index/slice/each/keys/has/key from one collection with the plain value's semantics (C08.iface obligations, without the recorded String.Index finding)", 25,
+				func(k string) bool { return k != "String.Index:out-of-range" })
+		}
+	})
 	// one evaluation must not change a value that later evaluations share (decode trees, jq arrays/objects)
 	RegisterExtra("C18", func(r *fw.Run, p *fw.Program) {
 		jqImmutAs(r, p, "C18.immut")
